@@ -33,8 +33,8 @@ RULE = (
     "Four kinds of cases. 'h': a group of hostnames against the bundled rule list (one group per "
     "bundled rule: the rule as a host with its wildcard instantiated by a fresh label and by every "
     "label that also starts a longer rule, with 1-2 extra labels, its exception label, every proper "
-    "suffix, sibling labels), each host given bare, upper-cased, with a trailing dot, as http://h/p "
-    "and as h:80/p; plus the corpus of fixed defects, special hosts / look-alikes and seeded random "
+    "suffix, sibling labels), each host given bare, upper-cased, with a trailing dot, as http://h/p, "
+    "as h:80/p and as HTTPS://user:pw@h:8080/p?q=1#f; plus the corpus of fixed defects, special hosts / look-alikes and seeded random "
     "label sequences over the labels of the bundled list. For every form split_suffix, "
     "get_domain_name, has_valid_suffix, extract_suffix, has_valid_tld and is_valid_tld (of the last "
     "label, upper-cased, punycoded and decoded) are compared with the Lean model (trie built by the "
@@ -199,11 +199,11 @@ def ascii_lower(s):
 
 
 def forms(h):
-    """bare, upper-cased, trailing dot, inside URLs"""
+    """bare, upper-cased, trailing dot, inside URLs (scheme, scheme-less with port, userinfo + port + query)"""
     up = h.upper()
     if up.lower() != h:
         up = ascii_upper(h)
-    return [h, up, h + ".", "http://%s/p" % h, "%s:80/p" % h]
+    return [h, up, h + ".", "http://%s/p" % h, "%s:80/p" % h, "HTTPS://user:pw@%s:8080/p?q=1#f" % h]
 
 
 def hostname_of(url):
@@ -399,7 +399,7 @@ def cases(rng, tier):
         for rs in _canonical_subsets(U2, 3):
             yield {"k": "syn", "rules": rs}
     # ---- seeded random ----
-    n = 3000 if tier == "quick" else 40000
+    n = 8000 if tier == "quick" else 120000
     for _ in range(n):
         k = rng.choice([3, 4, 4, 5])
         rs = [rng.choice(U3) for _ in range(k)]
